@@ -6,6 +6,7 @@
 package sync
 
 import "sync"
+import "github.com/corazawaf/coraza/v3/internal/verifhook"
 
 func NewPool(new func() any) Pool {
 	return &stdPool{
@@ -20,9 +21,11 @@ type stdPool struct {
 }
 
 func (p *stdPool) Get() any {
+	verifhook.Yield("pool.get")
 	return p.pool.Get()
 }
 
 func (p *stdPool) Put(x any) {
+	verifhook.Yield("pool.put")
 	p.pool.Put(x)
 }
